@@ -246,13 +246,21 @@ Bounded(s) ==
     \/ Cardinality(Diff(s)) = 2 /\ \A c \in Diff(s) : s[c] = Alt1[c]
 
 \* The labels tried in state s by the exhaustive run.
+\* The documentation does not say whether the rewrite list is a set or a
+\* list that may hold an entry twice (then "update" and "delete" of one of
+\* the copies are not defined by it either): the harness never asks for an
+\* entry that is already there.
+MakesDuplicate(s, lab) == \/ lab.op = "rw_add" /\ lab.v \in s.rw
+                          \/ lab.op = "rw_upd" /\ lab.w \in s.rw /\ lab.w # lab.v
+
 \* In the two-component states only the requests that change something
 \* are tried (they lead back), in the others every request, also those
 \* that ask for the value already in force.
 Labels(s) ==
     {lab \in ChangeLabels : /\ WellTyped(lab) /\ Out(s, lab) # {}
                             /\ \A o \in Out(s, lab) : Bounded(o.st)
-                            /\ (Cardinality(Diff(s)) <= 1 \/ \E o \in Out(s, lab) : o.st # s)}
+                            /\ (Cardinality(Diff(s)) <= 1 \/ \E o \in Out(s, lab) : o.st # s)
+                            /\ ~MakesDuplicate(s, lab)}
     \cup (IF Cardinality(Diff(s)) <= 1 THEN {lab \in RefusedLabels : Out(s, lab) # {}} ELSE {})
 
 \* A crash in the middle of a request is tried for every change of the
